@@ -4,7 +4,7 @@ namespace S2T.Drv.C07
 open Lean S2T.Drv S2T.Router
 
 /-- op `c07.route`: {"pl": lowered path, "mime": str|null} ↦ {"sup": bool, "ext": "module:function" | "ERR:formatNotSupported", "ft": str|null} -/
-def handle (j : Json) : Except String Json := do
+def route (j : Json) : Except String Json := do
   let pl ← getStr j "pl"
   let mime ← getOptStr j "mime"
   let T := S2T.Gen.Router.tables
@@ -17,5 +17,10 @@ def handle (j : Json) : Except String Json := do
     | some t => Json.str (str t)
     | none => Json.null
   return Json.mkObj [("sup", Json.bool sup), ("ext", Json.str ext), ("ft", ft)]
+
+def handle (op : String) (j : Json) : Option (Except String Json) :=
+  match op with
+  | "c07.route" => some (route j)
+  | _ => none
 
 end S2T.Drv.C07
